@@ -12,7 +12,7 @@ use flsrc::search::Searcher;
 use refchess::{Kind, Pos};
 use serde_json::{json, Value};
 
-pub const RULE: &str = "(1) public API: positions from the C01 mixture plus discovered-check motifs (by ep capture removing two men from a line, by castling, by promotion / under-promotion), mover NOT in check: multiset(generate_quiescence_moves(p)) == { m legal : m captures (incl. ep) or promotes or the opponent's king is attacked after m }, computed entirely by the reference. (2) what the search actually iterates over: with recording switched on (hook, one inserted line after search_until_quiet has chosen its list) find_best_move(p, 1..2) is run and for every recorded quiescence node: if its mover is in check the list must be ALL reference-legal moves, else the set of (1); the recorded in-check flag must agree with the reference. (3) deep lines: full middlegame / game / pool positions searched to depth 1..4, or the quiescence search called directly (hook verif_quiesce) with a generated window around the static value, under a node cap; only nodes at least 10 plies below the horizon are recorded and judged as in (2) — the statement puts no bound on how far beyond the nominal depth the rule holds; the deepest level reached is reported. Non-trivial = position has >=1 quiet checking move or >=1 discovered check, or is in check; distinct by FEN.";
+pub const RULE: &str = "(1) public API: positions from the C01 mixture plus discovered-check motifs (by ep capture removing two men from a line, by castling, by promotion / under-promotion), mover NOT in check: multiset(generate_quiescence_moves(p)) == { m legal : m captures (incl. ep) or promotes or the opponent's king is attacked after m }, computed entirely by the reference. (1b) ENUMERATED check-geometry grid (grid.rs) through the same public entry point: every direct check by every kind of man from every square (promotions giving check backwards through the vacated square), every discovered check (every slider line x every blocker kind x every in-between square), castling with the enemy king on every square (check on the file and along the back rank), en-passant captures with the enemy king on every square and an own slider on every aligned square (direct check, discovery by the capturer, by the victim, by both), en-passant pins; each also colour-mirrored and with one man of the other side added. (2) what the search actually iterates over: with recording switched on (hook, one inserted line after search_until_quiet has chosen its list) find_best_move(p, 1..2) is run and for every recorded quiescence node: if its mover is in check the list must be ALL reference-legal moves, else the set of (1); the recorded in-check flag must agree with the reference. (3) deep lines: full middlegame / game / pool positions searched to depth 1..4, or the quiescence search called directly (hook verif_quiesce) with a generated window around the static value, under a node cap; only nodes at least 10 plies below the horizon are recorded and judged as in (2) — the statement puts no bound on how far beyond the nominal depth the rule holds; the deepest level reached is reported. Non-trivial = position has >=1 quiet checking move or >=1 discovered check, or is in check; distinct by FEN.";
 
 fn classify(p: &Pos, stats: &mut Stats) -> bool {
     // quiet checking moves and discovered checks (the moved man does not itself attack the king)
@@ -340,6 +340,15 @@ pub fn run(tier: Tier, seed: u64, known: &Known) -> PropRun {
         ("recorded", tier.pick(1_500, 60_000), 400, part_recorded),
         ("deep", tier.pick(320, 4_000), 700, if tier == Tier::Quick { part_deep_q } else { part_deep_t }),
     ];
+    // part 'geometry' first: the enumerated check-geometry grid (see grid.rs) through the public API
+    let items = crate::grid::items();
+    run.stats.class_n("geometry_grid_items_enumerated", items.len() as u64);
+    let (st, fail) = crate::runner::run_enumerated("geometry", &items, threads(), seed, known, |it, st| judge_grid(it, st));
+    run.stats.merge(st);
+    if fail.is_some() {
+        run.failure = fail;
+        return run;
+    }
     for (name, cases, max_len, f) in parts {
         let part = Part { name, cases, min_len: 8, max_len, max_shrink: 2000, threads: threads() };
         let (st, fail) = run_part(&part, seed, known, f);
@@ -350,6 +359,21 @@ pub fn run(tier: Tier, seed: u64, known: &Known) -> PropRun {
         }
     }
     run
+}
+
+/// One item of the enumerated check-geometry grid, with and without a man of the other side added.
+fn judge_grid(it: &crate::grid::GridItem, stats: &mut Stats) -> Verdict {
+    let Some(p) = crate::grid::build(it) else {
+        stats.exclude("grid combination that is not a valid position");
+        return Ok(());
+    };
+    stats.class(crate::grid::describe(it));
+    eng::set_counter_wish(0, 1);
+    judge_api(&p, stats)?;
+    if let Some(q) = crate::grid::with_defender(it, &p) {
+        judge_api(&q, stats)?;
+    }
+    Ok(())
 }
 
 pub fn replay(part: &str, bytes: &[u8], case: &Value, stats: &mut Stats) -> Verdict {
